@@ -149,10 +149,13 @@ pub fn gen_plan(seed: u64, index: usize, _tier: Tier) -> Plan {
         base.k.max_uni = 6;
     }
     let n = if flood { rng.usize(8, 14) } else { n };
+    // one run in eight: 9-40 ignorable elements at one and the same place ("any number")
+    let many: Option<Where> = if !flood && rng.chance_pm(125) { Some(rng.pick(&[Where::BeforeHeaders, Where::ControlEarly, Where::ControlLate, Where::SessionStream]).clone()) } else { None };
+    let n = if many.is_some() { rng.usize(9, 40) } else { n };
     let mut ins = Vec::new();
     for _ in 0..n {
-        let at = if flood { rng.pick(&[Where::UniEarly, Where::UniLate]).clone() } else { rng.pick(&[Where::ControlEarly, Where::ControlLate, Where::BeforeHeaders, Where::SessionStream, Where::InSettings, Where::UniEarly, Where::UniLate]).clone() };
-        let grease = rng.chance_pm(350);
+        let at = if let Some(w) = &many { w.clone() } else if flood { rng.pick(&[Where::UniEarly, Where::UniLate]).clone() } else { rng.pick(&[Where::ControlEarly, Where::ControlLate, Where::BeforeHeaders, Where::SessionStream, Where::InSettings, Where::UniEarly, Where::UniLate]).clone() };
+        let grease = rng.chance_pm(if many.is_some() { 800 } else { 350 });
         let (ty, value) = match at {
             Where::InSettings => {
                 let known = |t: u64| matches!(t, 0x00 | 0x01 | 0x02 | 0x03 | 0x04 | 0x05 | 0x06 | 0x07 | 0x08 | 0x33) || t == rc::SET_ENABLE_WEBTRANSPORT || t == rc::SET_WT_MAX_SESSIONS || t == 0x2b603743 || t == 0xc671706b;
@@ -193,6 +196,10 @@ pub fn gen_plan(seed: u64, index: usize, _tier: Tier) -> Plan {
         let known_capsule = |t: u64| matches!(t, 0x00 | 0x2843 | 0x78ae) || (0x190b_4d3d..=0x190b_4d44).contains(&t);
         let ty = if as_capsule && known_capsule(ty) { rc::grease(ty) } else { ty };
         let mut payload = gen_payload(&mut rng);
+        if many.is_some() {
+            // many small elements: the whole must stay within frame and stream limits
+            payload.truncate(24);
+        }
         if matches!(ty, 0x03 | 0x07 | 0x0d) {
             payload = rc::varint(rng.range(0, 100) * 4);
         }
